@@ -14,29 +14,30 @@ open Model
     truncated bin is wider than `Pk`'s resolution, on the lower edge for a bin truncated to (numerically) zero width -/
 theorem star_mean_in_truncated_bin (n a lo hi Ms ms : ℝ) (hlo : 0 < lo) (hlt : lo < hi) (hn : n ≠ 0)
     (h : extractStar n a lo hi = some (Ms, ms)) :
-    lo ≤ ms ∧ ms < hi ∧ Ms = n * ms ∧ ((Pk a 1 lo hi).isSome → lo < ms) := by
+    lo ≤ ms ∧ ms < hi ∧ Ms = n * ms ∧ ((Pk a 1 lo hi).isSome → (Pk a 2 lo hi).isSome → lo < ms) := by
   unfold extractStar at h
   simp only [real_one, real_two] at h
+  have hthin : n * lo / n = lo := by field_simp
   split at h
-  · -- thin bin: stars of the lower-edge mass
-    rename_i h1
+  · rename_i p1 p2 h1 h2
     cases h
-    have hms : n * lo / n = lo := by field_simp
-    rw [hms]
-    exact ⟨le_rfl, hlt, rfl, fun hs => by rw [h1] at hs; cases hs⟩
-  · rename_i p1 h1
-    split at h
-    · rename_i p2 h2
-      cases h
-      have e1 := C03.Pk_some_eq _ _ _ _ _ h1
-      have e2 := C03.Pk_some_eq _ _ _ _ _ h2
-      have hp1 : 0 < p1 := C12.Pk_never_nonpos _ _ _ _ _ h1
-      have hmean := mean_in_interval a lo hi hlo hlt
-      have hms : n / p1 * p2 / n = p2 / p1 := by field_simp
-      rw [hms, e1, e2]
-      refine ⟨hmean.1.le, hmean.2, ?_, fun _ => hmean.1⟩
-      rw [← e1, ← e2]; field_simp
-    · cases h
+    have e1 := C03.Pk_some_eq _ _ _ _ _ h1
+    have e2 := C03.Pk_some_eq _ _ _ _ _ h2
+    have hp1 : 0 < p1 := C12.Pk_never_nonpos _ _ _ _ _ h1
+    have hmean := mean_in_interval a lo hi hlo hlt
+    have hms : n / p1 * p2 / n = p2 / p1 := by field_simp
+    rw [hms, e1, e2]
+    refine ⟨hmean.1.le, hmean.2, ?_, fun _ _ => hmean.1⟩
+    rw [← e1, ← e2]; field_simp
+  · -- thin bin: stars of the lower-edge mass
+    rename_i hnot
+    cases h
+    rw [hthin]
+    refine ⟨le_rfl, hlt, rfl, fun hs1 hs2 => ?_⟩
+    exfalso
+    obtain ⟨p1, hp1⟩ := Option.isSome_iff_exists.1 hs1
+    obtain ⟨p2, hp2⟩ := Option.isSome_iff_exists.1 hs2
+    exact hnot p1 p2 hp1 hp2
 
 /-- the cone of a bin: lo·N ≤ M ≤ hi·N (mean mass inside the bin whenever it is populated) -/
 def InCone (lo hi N M : ℝ) : Prop := lo * N ≤ M ∧ M ≤ hi * N
@@ -129,7 +130,7 @@ theorem empty_bin_reports_centre (lo hi N M : ℝ) (hN : ¬ 0 < N) : remMean lo 
 
 structure Statement : Prop where
   star : ∀ n a lo hi Ms ms : ℝ, 0 < lo → lo < hi → n ≠ 0 → extractStar n a lo hi = some (Ms, ms) →
-    lo ≤ ms ∧ ms < hi ∧ Ms = n * ms ∧ ((Pk a 1 lo hi).isSome → lo < ms)
+    lo ≤ ms ∧ ms < hi ∧ Ms = n * ms ∧ ((Pk a 1 lo hi).isSome → (Pk a 2 lo hi).isSome → lo < ms)
   cone : ∀ (lo hi : ℝ) (us : List Update), (∀ u ∈ us, ValidUpdate lo hi u) →
     InCone lo hi (us.foldl applyUpdate (0, 0)).1 (us.foldl applyUpdate (0, 0)).2
   /-- … and along an exact solution: deposits of mass `m(t) ∈ [lo, hi]` at rate `d(t) ≥ 0` plus removal at the bin's mean mass with
